@@ -96,7 +96,9 @@ def make_block(rt, k, tag, cd=None, md=None):
         b = OpticalSetupBlock(channels=[OpticalChannelData(i, f"l{tag}", f"t{i}", f"n{tag}_{i}", _vp(tag, i))
                                          for i in range(k)])
     elif rt == 16:
-        b = TemporalEventsData(start_time=np.float32(tag % 977))
+        from basictdf.tdfEvents import TemporalEventsDataFormat
+        # the "unknown" format code 0 is a valid block as far as the library is concerned
+        b = TemporalEventsData(format=TemporalEventsDataFormat(tag % 3 != 0), start_time=np.float32(tag % 977))
         for i in range(k):
             b.events.append(Event(lab(i), _f(tag, i, 1 + i % 2),
                                   EventsDataType.singleEvent if i % 2 == 0 else EventsDataType.eventSequence))
